@@ -20,7 +20,7 @@ pub fn property() -> Property {
     Property {
         id: "C13",
         level: "fault_enumeration",
-        rule: "Real loopback sockets; peers are harness threads with scripted stalls. Stall point in {upload not read (8 MiB body), inside the status line, between header lines, after the blank line, after k body bytes (length / close framing), inside a chunk-size line, inside chunk data, before the terminal chunk, during the TLS handshake of a direct https dial, inside the CONNECT reply, inside the tunnel} x {silent stall, one byte every R/3} x timeouts {T=300 ms, T=150 ms, T=300 ms + R=100 ms, R=150 ms alone, T=0 (deadline already expired when the connection is made), T=20 s + R=150 ms (the read timeout must fire although an overall timeout is set), R=0 alone (boundary value: every stall is longer than it; the call ends with an error at once, it must not turn into 'no read timeout')} and redirect chains of fast hops that together exceed T. Oracle: (a) the call returns Err within T (or R) + 1.5 s although the peer would hold it for 20 s; (d) the first end-of-body signal is never Ok for a body the peer had not finished; (c) converse histories - complete responses of every framing, read with loops of several buffer sizes plus up to 5 further reads after end-of-body spread over 200 ms - never see TimedOut (nor any error) before t0+T; (e) 250 ms after the response/error is dropped the process has no more threads or file descriptors than before the case. Hook H3 (schedule points in the watchdog thread and around the reader's end-of-stream ping) holds either thread at each label in turn (<= 400 ms) for the scenarios {genuine end of stream before the deadline, stall cut by the deadline} x {close-delimited, length-delimited}; the recorded label sequences are the distinct interleavings observed. Resource fault 'fd-exhaustion': RLIMIT_NOFILE is lowered and the descriptor table filled so that k in {0,1,2,3} slots are free when the connection is made (k=1: the socket can be opened, the watchdog's own handle on it cannot) against a listener that never answers: the call still returns within T + margin. Load probe: a case whose 20 ms sleep oversleeps by > 150 ms is retried (x3) and then counted inconclusive, never as a violation. Non-trivial: every scenario; distinct = hash(scenario).",
+        rule: "Real loopback sockets; peers are harness threads with scripted stalls. Stall point in {upload not read (8 MiB body), inside the status line, between header lines, after the blank line, after k body bytes (length / close framing), inside a chunk-size line, inside chunk data, before the terminal chunk, during the TLS handshake of a direct https dial, inside the CONNECT reply, inside the tunnel} x {silent stall, one byte every R/3} x timeouts {T=300 ms, T=150 ms, T=300 ms + R=100 ms, R=150 ms alone, T=0 (deadline already expired when the connection is made), T=20 s + R=150 ms (the read timeout must fire although an overall timeout is set), R=0 alone (boundary value: every stall is longer than it; the call ends with an error at once, it must not turn into 'no read timeout')} and redirect chains of fast hops that together exceed T. Oracle: (a) the call returns Err within T (or R) + 1.5 s although the peer would hold it for 20 s; (d) the first end-of-body signal is never Ok for a body the peer had not finished; (c) converse histories (T in {1.5 s, 10 s, 2^62 s, Duration::MAX}) - complete responses of every framing, read with loops of several buffer sizes plus up to 5 further reads after end-of-body spread over 200 ms - never see TimedOut (nor any error) before t0+T; (e) 250 ms after the response/error is dropped the process has no more threads or file descriptors than before the case. Hook H3 (schedule points in the watchdog thread and around the reader's end-of-stream ping) holds either thread at each label in turn (<= 400 ms) for the scenarios {genuine end of stream before the deadline, stall cut by the deadline} x {close-delimited, length-delimited}; the recorded label sequences are the distinct interleavings observed. Resource fault 'fd-exhaustion': RLIMIT_NOFILE is lowered and the descriptor table filled so that k in {0,1,2,3} slots are free when the connection is made (k=1: the socket can be opened, the watchdog's own handle on it cannot) against a listener that never answers: the call still returns within T + margin. Load probe: a case whose 20 ms sleep oversleeps by > 150 ms is retried (x3) and then counted inconclusive, never as a violation. Non-trivial: every scenario; distinct = hash(scenario).",
         assumptions: &["the connect phase is outside the statement and not judged", "Linux loopback; Windows branches are not run", "reads issued only after T has passed are not judged (the exchange as a whole exceeded T)"],
         min_nontrivial: |t| t.pick(60, 400),
         gens,
@@ -369,7 +369,9 @@ fn run_converse(ctx: &mut Ctx, rng: &mut Rng, index: u64) {
         }
     }
     // near-deadline variant: the extra reads happen well before T but the watchdog is armed
-    let t_ms: u64 = if index % 2 == 0 { 10_000 } else { 1_500 };
+    // (u64::MAX stands for Duration::MAX - a deadline that is never reached - and 2^62 s for 'very far')
+    let t_ms: u64 = [10_000, 1_500, 10_000, 1_500, u64::MAX, 1 << 62][(index % 6) as usize];
+    let t_dur = if t_ms == u64::MAX { Duration::MAX } else if t_ms == 1 << 62 { Duration::from_secs(1 << 62) } else { Duration::from_millis(t_ms) };
     let leak = LeakGuard::start();
     let server: Server<()> = Server::spawn(move |mut s: TcpStream| {
         let _ = read_head(&mut s);
@@ -377,7 +379,7 @@ fn run_converse(ctx: &mut Ctx, rng: &mut Rng, index: u64) {
         // close: the response is complete
     });
     let t0 = Instant::now();
-    let rb = attohttpc::get(format!("http://127.0.0.1:{}/c13", server.port)).timeout(Duration::from_millis(t_ms)).read_timeout(Duration::from_secs(10));
+    let rb = attohttpc::get(format!("http://127.0.0.1:{}/c13", server.port)).timeout(t_dur).read_timeout(Duration::from_secs(10));
     let sizes = [*rng.pick(&[1usize, 7, 4096, 65536]), *rng.pick(&[3usize, 4096])];
     let extra = rng.range(1, 5);
     let mut problems: Vec<(String, String)> = Vec::new();
@@ -395,7 +397,7 @@ fn run_converse(ctx: &mut Ctx, rng: &mut Rng, index: u64) {
                     Ok(0) => break,
                     Ok(k) => got.extend_from_slice(&buf[..k]),
                     Err(e) => {
-                        problems.push((format!("{}:{}", if t0.elapsed() < Duration::from_millis(t_ms) { "false-timeout-or-error-before-deadline" } else { "error" }, ["length", "chunked", "close"][framing as usize]), descr(&format!("read failed with {:?}: {e} after {:?}", e.kind(), t0.elapsed()))));
+                        problems.push((format!("{}:{}", if t0.elapsed() < t_dur { "false-timeout-or-error-before-deadline" } else { "error" }, ["length", "chunked", "close"][framing as usize]), descr(&format!("read failed with {:?}: {e} after {:?}", e.kind(), t0.elapsed()))));
                         break;
                     }
                 }
@@ -411,7 +413,7 @@ fn run_converse(ctx: &mut Ctx, rng: &mut Rng, index: u64) {
                     Ok(0) => {}
                     Ok(n) => problems.push(("converse:bytes-after-end".into(), descr(&format!("read #{k} after the end returned {n} bytes")))),
                     Err(e) => {
-                        if t0.elapsed() < Duration::from_millis(t_ms) {
+                        if t0.elapsed() < t_dur {
                             problems.push((
                                 format!("false-timeout-after-end-of-body:{}", ["length", "chunked", "close"][framing as usize]),
                                 descr(&format!("read #{k} after end-of-body failed with {:?} ({e}) {:?} after the start although the response had completed and the deadline is {t_ms} ms", e.kind(), t0.elapsed())),
